@@ -349,9 +349,9 @@ impl Readings for ScriptCursor {
     }
 }
 
-pub const SCRIPT_CLASSES: [&str; 12] = [
+pub const SCRIPT_CLASSES: [&str; 13] = [
     "jittery", "const_delta_prefix", "arith_delta_prefix", "multiples_of_100", "backward_steps",
-    "huge_steps", "wrap_u64", "zero_readings", "tiny_jitter", "mixed", "long_stall", "coarse",
+    "huge_steps", "wrap_u64", "zero_readings", "tiny_jitter", "mixed", "long_stall", "coarse", "staircase",
 ];
 
 /// number of consecutive stuck measurements aimed at narrow-counter limits
@@ -488,6 +488,31 @@ pub fn gen_script(p: &mut Prng, class: usize, n: usize) -> Vec<u64> {
                 v.push(t);
             }
         }
+        12 => {
+            // staircase at MEASUREMENT granularity (a measurement reads the timer three
+            // times; only the middle reading is the time stamp): deltas repeat r times and
+            // then move on by a constant slope — d, d, 2d, 2d, 3d, 3d … — so repeated
+            // deltas are followed by a continuation of the earlier slope
+            let d0 = p.range(1, 60);
+            let slope = p.range(1, 40);
+            let rep = p.range(2, 3);
+            let mut d = d0;
+            let mut k = 0u64;
+            v.push(t); // priming reading of a collection
+            while v.len() + 3 <= n {
+                v.push(t);
+                t = t.wrapping_add(d);
+                v.push(t);
+                v.push(t);
+                k += 1;
+                if k % rep == 0 {
+                    d += slope;
+                }
+                if p.chance(1, 60) {
+                    d = d0; // restart the staircase now and then
+                }
+            }
+        }
         11 => {
             // coarse clock: the reading only changes every few calls, so
             // consecutive time stamps are often EQUAL (zero deltas), with short stalls
@@ -522,8 +547,9 @@ pub fn gen_script(p: &mut Prng, class: usize, n: usize) -> Vec<u64> {
 
 /// numbers of leading all-zero blocks a source delivers: small values and the
 /// neighbourhoods of plausible retry bounds
-pub const ZERO_BLOCK_COUNTS: [usize; 30] = [
+pub const ZERO_BLOCK_COUNTS: [usize; 32] = [
     0, 1, 2, 3, 4, 5, 7, 8, 9, 10, 11, 15, 16, 17, 31, 32, 33, 63, 64, 65, 99, 100, 101, 127, 128, 255, 256, 257, 1000, 1001,
+    65_537, 500_000,
 ];
 
 /// a seed-sized block of documented special content for a type: the
@@ -569,11 +595,13 @@ pub struct SourceRng {
     pub filled: Vec<u8>,
     /// a failing call scribbles over part of the caller's buffer (true) or leaves it untouched
     pub scribble: bool,
+    /// the failure is transient: only the call with index `fail_from` fails
+    pub fail_once: bool,
 }
 
 impl SourceRng {
     pub fn new(data: Vec<u8>) -> Self {
-        SourceRng { data, pos: 0, log: vec![], fail_from: None, token: 0, calls: 0, filled: vec![], scribble: true }
+        SourceRng { data, pos: 0, log: vec![], fail_from: None, token: 0, calls: 0, filled: vec![], scribble: true, fail_once: false }
     }
     fn take(&mut self, n: usize) -> Vec<u8> {
         let mut out = Vec::with_capacity(n);
@@ -617,7 +645,7 @@ impl TryRngCore for FallibleSource {
     type Error = SrcError;
     fn try_next_u32(&mut self) -> Result<u32, SrcError> {
         if let Some(f) = self.0.fail_from {
-            if self.0.calls >= f {
+            if (self.0.calls >= f && !self.0.fail_once) || self.0.calls == f {
                 self.0.calls += 1;
                 return Err(SrcError(self.0.token));
             }
@@ -626,7 +654,7 @@ impl TryRngCore for FallibleSource {
     }
     fn try_next_u64(&mut self) -> Result<u64, SrcError> {
         if let Some(f) = self.0.fail_from {
-            if self.0.calls >= f {
+            if (self.0.calls >= f && !self.0.fail_once) || self.0.calls == f {
                 self.0.calls += 1;
                 return Err(SrcError(self.0.token));
             }
@@ -635,7 +663,7 @@ impl TryRngCore for FallibleSource {
     }
     fn try_fill_bytes(&mut self, dest: &mut [u8]) -> Result<(), SrcError> {
         if let Some(f) = self.0.fail_from {
-            if self.0.calls >= f {
+            if (self.0.calls >= f && !self.0.fail_once) || self.0.calls == f {
                 self.0.calls += 1;
                 // a failing source may have scribbled over part of the buffer
                 if self.0.scribble {
